@@ -356,6 +356,12 @@ Part(tk) ==
     [] Family = "c13" /\ ND > 1 -> IF HasY THEN C13_2D_Y(tk)
                                    ELSE IF Overlaps THEN C13_2D_OV(tk) ELSE C13_2D(tk)
     [] Family = "c06" /\ ND = 1 -> C01_1D(tk) @@ C02_1D(tk) @@ C03_1D(tk) @@ C11_1D(tk)
+    \* member cubes of a multi-cube set that the library rebuilds (single-column filter
+    \* cube): every constructor argument must survive, so the population estimates, the
+    \* masks and the effect of the display transforms are read too
+    [] Family = "c06f" /\ ND = 1 -> C01_1D(tk) @@ C02_1D(tk) @@ C03_1D(tk) @@ C11_1D(tk)
+                                    @@ C17_1D(tk)
+                                    @@ [shape |-> Exact(<<Len(RowOrder(tk))>>)]
     [] Family = "c06" /\ ND > 1 -> IF HasY THEN C06_2D(tk) @@ C01_2D_Y(tk) ELSE C06_2D(tk)
     \* C04 names every measure "defined for a subtotal": the errors, residuals, scale
     \* statistics and population estimates ride along with the counts and proportions
